@@ -24,7 +24,7 @@ def run_demo(d, tree, meta):
     m = re.search(r"--shots=(\d+)", meta.get("demo", ""))
     shots = (" --shots=" + m.group(1)) if m else ""
     extra = " --emit-qasm" if "--emit-qasm" in meta.get("demo", "") else ""
-    return sh(env + "%s %s%s%s" % (binp, os.path.join(d, "demo.bloch"), shots, extra), cwd=d)[1]
+    return sh(env + "timeout 20 %s %s%s%s" % (binp, os.path.join(d, "demo.bloch"), shots, extra), cwd=d)[1]
 
 
 def main():
